@@ -81,6 +81,8 @@ impl<'a, R: Read> Lexer<Scanner<'a, R>> {
         #[cfg(feature = "verif-hooks")]
         crate::haystack::verif_hooks::tick(crate::haystack::verif_hooks::SITE_ZINC_LEXER_READ);
         while !self.scanner.is_eof {
+            #[cfg(feature = "verif-hooks")]
+            crate::haystack::verif_hooks::tick(crate::haystack::verif_hooks::SITE_LOOP);
             match self.scanner.cur {
                 // Spaces
                 b' ' | b'\t' => {
